@@ -9,7 +9,7 @@ RULE = ("(A) MC_Core MirrorLaw/ModeIndependent: for every call of every family, 
         "msb0 on the bit-reversed operands; shifts, rotations' direction, ==, hash, count are mode independent. "
         "(B) every Gen_Core family replayed with options.lsb0 = True (sequence, mutators, search, stream). (C) random programs "
         "under lsb0 incl. bytealigned searches and >8192-bit data, and programs that toggle lsb0 between calls on the same "
-        "objects (restores msb0 behaviour exactly). All judged by TLC with the spec's lsb0 := Rev o msb0 o Rev definitions.")
+        "objects (restores msb0 behaviour exactly); values of every dtype created and interpreted by every route, token reads and pack / unpack / readlist of random formats with options.lsb0 set (interpretations identical in both modes, token order mirrored). All judged by TLC with the spec's lsb0 := Rev o msb0 o Rev definitions.")
 
 
 def toggle_program(rng):
@@ -63,5 +63,16 @@ def run(chk):
     common.run_random(chk, drivers.c07_program, 1200 * k, 124, lsb0=True, huge=0.03 if thorough else 0.005)
     rng = random.Random(chk.seed * 31 + 125)
     chk.queue([toggle_program(rng) for _ in range(800 * k)], 'random-toggle')
+    # whole-value interpretations are identical in both modes; pack / unpack / reads mirror their order
+    from harness import codecprogs, miniprogs, fmtprogs
+
+    def under_lsb0(p):
+        p['calls'].insert(0, setopt('lsb0', 1))
+        return p
+    for fn, n_ in ((codecprogs.random_codec_program, 300), (codecprogs.random_pattern_program, 200),
+                   (codecprogs.value_history_program, 150), (miniprogs.random_mini_program, 150)):
+        chk.queue([under_lsb0(fn(rng)) for _ in range(n_ * k)], f'lsb0-{fn.__name__}')
+    chk.queue([fmtprogs.fmt_program(rng, lsb0=True) for _ in range(400 * k)], 'lsb0-formats')
+    chk.queue([fmtprogs.stream_fmt_program(rng, lsb0=True) for _ in range(300 * k)], 'lsb0-token-reads')
     chk.flush()
     return chk.finish(rule=RULE, assumptions=common.ASSUME)
